@@ -4,6 +4,6 @@ namespace vd
 {
 
     __attribute__((weak)) js::val mode_mt(const js::val&) { throw std::runtime_error("mt: not implemented"); }
-    __attribute__((weak)) js::val mode_api(const js::val&) { throw std::runtime_error("api: not implemented"); }
+
 
 }
